@@ -113,6 +113,11 @@ def judge_slice(case, rec):
                     continue
                 if diff or s == "nan":
                     want = None
+                elif tot != 0 and abs(tot) < 1e-9:
+                    # sums of positive and negative values that cancel: whether the total is
+                    # 0 or 1e-17 is the order of addition (weights that are not exactly
+                    # representable); the share is +-inf or 1e16 accordingly
+                    continue
                 elif tot == 0:
                     want = None if s == 0 else ("inf" if s > 0 else "-inf")
                 else:
@@ -206,7 +211,7 @@ def judge_strand(case, rec):
             continue  # the statement does not define the share of a difference
         if v is None:
             want = None
-        elif total == 0:
+        elif abs(total) < 1e-9:
             continue
         else:
             want = v / total
